@@ -118,7 +118,7 @@ def cmd_import(src, name, checks, tier):
                     shutil.copy2(p, os.path.join(dst, fn))
             out_meta = {
                 "property": prop, "name": name,
-                "breaks": meta.get("summary"), "needs_to_manifest": meta.get("needs_to_manifest"),
+                "breaks": meta.get("breaks") or meta.get("summary"), "needs_to_manifest": meta.get("needs_to_manifest"),
                 "why_tests_pass": meta.get("why_tests_pass"), "files": meta.get("files"),
                 "author": "independent sub-agent given only the property text and a scratch worktree",
                 "validation": val,
